@@ -127,7 +127,8 @@ class PTable(EngineBase):
         pool = world["pool"]
         pid = rng.choice(pool)
         r = rng.random()
-        if prop == "C02" and r < 0.22:
+        if (prop == "C02" and r < 0.22) or (prop == "C05" and r < 0.05):
+            # (C05: the tree does not depend on the wall clock either)
             delta = rng.choice([0.5, -0.5, 1.0, -1.0, 3600.0, -3600.0,
                                 86400.0 * 3, -0.01, 0.01, 2.0, -2.0,
                                 rng.randrange(-500, 500) / 100.0])
